@@ -1,6 +1,7 @@
 (* The variance comparison of the C08 correspondence, literally:
-     close (smax * smax) (qvariance xs) (Qc_of_bits stddev * Qc_of_bits stddev)
-   (Corr/C08Single.v, check_single) holds for an implementation that computes the deviation as the Go
+     var_close n smax (qvariance xs) (Qc_of_bits stddev * Qc_of_bits stddev)
+   i.e. |Var - stddev^2| <= 1e-9 * Var + 5 * (n u)^2 * smax^2  (Corr/C08Single.v, check_single;
+   Corr/C08Full.v, timer_matches) holds for an implementation that computes the deviation as the Go
    code does (Model/FloatSum.go_stddev), by Proofs/FloatVar.tolerance_sound_variance. *)
 From Coq Require Import List ZArith QArith Qcanon Qreals Reals Floats Lia Lra Permutation.
 From Flocq Require Import Core.Core.
@@ -57,6 +58,18 @@ Proof.
   - eapply Rle_trans; [apply IH; exact Hin|apply QR_qmax_r].
 Qed.
 
+Lemma QR_u53 : QR u53 = u.
+Proof. unfold u53. rewrite QR_Q2Qc, u_val. unfold Q2R. cbn. lra. Qed.
+Lemma QR_of_Z5 : QR (Qc_of_Z 5) = 5.
+Proof. unfold Qc_of_Z. rewrite QR_Q2Qc. unfold Q2R. cbn. lra. Qed.
+
+Lemma var_close_QR k smax var obs2 :
+  var_close k smax var obs2 = true <->
+  Rabs (QR var - QR obs2) <= / 1000000000 * QR var + 5 * ((INR k * u) * (INR k * u)) * (QR smax * QR smax).
+Proof.
+  unfold var_close, var_tol. rewrite Qcleb_QR, QR_qabs, QR_minus, QR_plus, !QR_mult, QR_tol, QR_of_Z5, QR_qnat, QR_u53. tauto.
+Qed.
+
 Lemma rdev_perm c l l' : Permutation l l' -> rdev c l = rdev c l'.
 Proof. intros H. unfold rdev. apply rsum_perm, Permutation_map, H. Qed.
 
@@ -83,10 +96,10 @@ Section VarianceQc.
   Hypothesis Ho : float_of_bits o = go_stddev xs count.
 
   Theorem tolerance_sound_variance_qc :
-    close (scale_max (map Qc_of_bits bs) * scale_max (map Qc_of_bits bs))
-          (qvariance (map Qc_of_bits bs)) (Qc_of_bits o * Qc_of_bits o) = true.
+    var_close (length bs) (scale_max (map Qc_of_bits bs))
+              (qvariance (map Qc_of_bits bs)) (Qc_of_bits o * Qc_of_bits o) = true.
   Proof.
-    apply close_QR. rewrite !QR_mult, QR_of_bits, Ho.
+    apply var_close_QR. rewrite !QR_mult, QR_of_bits, Ho.
     assert (Hlen : length xs = length bs) by (unfold xs; rewrite map_length; symmetry; apply Permutation_length, Hperm).
     rewrite QR_qvariance by (rewrite map_length; exact Hn0).
     rewrite map_QR_bits, !map_length.
